@@ -33,6 +33,8 @@ type c12Params struct {
 	Procs    int    `json:"procs,omitempty"`
 	Seed     int64  `json:"seed"`
 	Repeats  int    `json:"repeats,omitempty"`
+	// D is the number of data shards (default 3).
+	D int `json:"d,omitempty"`
 	RaceMode bool   `json:"race_mode,omitempty"`
 }
 
@@ -95,6 +97,15 @@ func (c *c12) Cases(tier string, seed int64) []core.Case {
 			cse.Race = true
 			cs = append(cs, cse)
 		}
+	}
+	// many short data shards (a different way to divide the work may apply there)
+	for _, pr := range []int{2, 4, 16} {
+		cs = append(cs, core.MkCase(fmt.Sprintf("coder-many-shards-procs%d", pr), c12Params{Mode: "coder", D: 130 + 17*pr, Lens: []int{2, 6, 16, 18, 30, 34, 48, 62, 100, 130}, Workers: []int{2, 3, 8, 16, 64}, Procs: pr, Seed: r.Int63(), Repeats: map[string]int{"quick": 6, "thorough": 80}[tier]}))
+	}
+	{
+		cse := core.MkCase("race-coder-many-shards", c12Params{Mode: "coder", D: 160, Lens: []int{2, 16, 18, 34, 62, 130}, Workers: []int{2, 8, 16, 64}, Procs: 8, Seed: r.Int63(), Repeats: 2, RaceMode: true})
+		cse.Race = true
+		cs = append(cs, cse)
 	}
 	for i := 0; i < 4; i++ {
 		cse := core.MkCase(fmt.Sprintf("race-create-%d", i), c12Params{Mode: "create", Seed: r.Int63(), RaceMode: true})
@@ -363,6 +374,9 @@ func (c *c12) runCoder(r *core.R, p c12Params) {
 	defer runtime.GOMAXPROCS(old)
 	rng := rand.New(rand.NewSource(p.Seed))
 	d, pc := 3, 2
+	if p.D > 0 {
+		d = p.D
+	}
 	for _, kind := range []string{"vandermonde", "cauchy"} {
 		for _, l := range p.Lens {
 			data := randShards(rng, d, l)
@@ -401,7 +415,12 @@ func (c *c12) runCoder(r *core.R, p c12Params) {
 						}
 					}
 					// Reconstruct two missing shards.
-					in := [][]byte{nil, append([]byte(nil), data[1]...), nil}
+					in := make([][]byte, d)
+					for i := range in {
+						if i != 0 && i != 2%d {
+							in[i] = append([]byte(nil), data[i]...)
+						}
+					}
 					c12rec.perturb = true
 					c12rec.begin(uint64(p.Seed) ^ uint64(l)<<21 ^ uint64(g)<<9 ^ uint64(rep) ^ 1)
 					core.Note("C12 ReconstructData %s len=%d g=%d procs=%d", kind, l, g, p.Procs)
@@ -446,6 +465,15 @@ func (c *c12) runCreate(r *core.R, p c12Params) {
 	for i := 0; i < nf; i++ {
 		n := scen.SizeAround(rng, slice, false)
 		set.Files = append(set.Files, scen.File{Name: scen.GenName(rng, i, true, true), Data: scen.GenData(rng, "random", n, slice)})
+	}
+	if p.Seed%2 == 0 && nf >= 2 {
+		// identical slices in different files: scanning them touches the same
+		// bookkeeping entries
+		shared := scen.GenData(rng, "random", 3*slice, slice)
+		for i := range set.Files {
+			set.Files[i].Data = append(append([]byte(nil), shared...), set.Files[i].Data...)
+		}
+		set.Content = "dupslices"
 	}
 	gs := []int{1, 2, 3, 7, 16, 64, 1000}
 	if p.RaceMode {
